@@ -475,6 +475,22 @@ thread_local! {
     static SOURCE_INTERRUPTS: std::cell::Cell<bool> = const { std::cell::Cell::new(false) };
 }
 
+thread_local! {
+    /// the ROUTE by which a writer configuration reaches its final state (0 = the shortest: new, set_layers, level,
+    /// keys); the other routes reach the SAME final layers and keys through other calls of the builder - layers
+    /// enabled one by one, a layer disabled and enabled again, everything disabled then set, keys first, keys in
+    /// two calls (C07: the secrets of the archive must be as fresh by any route)
+    static CFG_ROUTE: std::cell::Cell<u8> = const { std::cell::Cell::new(0) };
+}
+
+pub fn set_cfg_route(r: u8) {
+    CFG_ROUTE.with(|c| c.set(r));
+}
+
+pub fn cfg_route() -> u8 {
+    CFG_ROUTE.with(std::cell::Cell::get)
+}
+
 pub fn set_source_interrupts(on: bool) {
     SOURCE_INTERRUPTS.with(|c| c.set(on));
 }
